@@ -169,6 +169,11 @@ pub mod sim {
         !matches!(ExecutionState::try_with(|_| ()), Err(ExecutionStateBorrowError::NotSet))
     }
 
+    /// A plain scheduling point (the scheduler may switch to another task here).
+    pub fn scheduling_point() {
+        shuttle_engine::runtime::thread::switch();
+    }
+
     pub fn note_role(role: Role) {
         if let Some(t) = current_task() {
             STATE.with(|s| {
